@@ -100,6 +100,52 @@ def norm(sps):
     return tuple(t if t.startswith('"') else t.replace(" ", "") for t in sps if t != "")
 
 
+def find_probe(numeric, fails, stats):
+    """The command-line route: the macro table given as `defines` of a compile command (the strings that follow
+    -D), the invocation in `#if INV == k`, through finder.find: one platform and one file per case."""
+    import shutil
+    import tempfile
+    from .. import cbi
+    if not numeric:
+        return
+    base = "/dev/shm" if os.path.isdir("/dev/shm") else None
+    d = tempfile.mkdtemp(prefix="c03f-", dir=base)
+    try:
+        conf, want = {}, {}
+        for i, (case, tg) in enumerate(numeric):
+            k = int(case["out"][0])
+            path = os.path.join(d, f"f{i}.c")
+            with open(path, "w") as f:
+                f.write(f"#if {' '.join(case['inv'])} == {k}\nint t;\n#else\nint e;\n#endif\n")
+            defs = []
+            for m in case["macros"].values():
+                head, body = define_text(m)
+                defs.append(f"{head}={body}")
+            conf[f"c{i}"] = [cbi.entry(path, defs)]
+            want[f"c{i}"] = (path, case, tg, defs)
+        st, cb, logs, err = cbi.run_find(d, conf)
+        stats["evals"] += len(conf)
+        if err is not None:
+            # isolate the failing case(s)
+            for name, (path, case, tg, defs) in want.items():
+                st1, _, _, e1 = cbi.run_find(d, {name: conf[name]})
+                if e1 is not None:
+                    fails.append(dict(layer="G", tags=sorted(tg | {"via.find"}), symptom=f"exception:{e1[0]}",
+                                      detail=f"-D {defs} ;; #if {' '.join(case['inv'])} == {case['out'][0]} through finder.find: {e1[1]}",
+                                      case=case))
+                    if len(fails) > 20:
+                        break
+            return
+        for name, (path, case, tg, defs) in want.items():
+            la = cbi.line_attr(st, path) or {}
+            if not (name in la.get(2, ()) and name not in la.get(4, ())):
+                fails.append(dict(layer="G", tags=sorted(tg | {"via.find"}), symptom="wrong-if-truth",
+                                  detail=f"-D {defs} ;; #if {' '.join(case['inv'])} == {case['out'][0]} is false through finder.find",
+                                  case=case))
+    finally:
+        shutil.rmtree(d, ignore_errors=True)
+
+
 def check_chunk(args):
     cases, seed = args
     import warnings
@@ -107,6 +153,7 @@ def check_chunk(args):
     from codebasin import preprocessor as pp
     fails = []
     stats = {"evals": 0, "nontrivial": 0, "ill": 0}
+    numeric = []
     for case in cases:
         core.tick(case, 20)
         if case["ill"]:
@@ -134,6 +181,8 @@ def check_chunk(args):
             # through the truth value of #if when the expansion is one number
             if via == "define" and len(case["out"]) == 1 and case["kinds"][0] == "num" and case["out"][0].isdigit():
                 k = int(case["out"][0])
+                if len(numeric) < 400:
+                    numeric.append((case, tg))
                 for expr, want in ((f"{' '.join(case['inv'])} == {k}", True), (f"{' '.join(case['inv'])} == {k + 1}", False)):
                     stats["evals"] += 1
                     try:
@@ -168,6 +217,7 @@ def check_chunk(args):
                                       detail=f"{desc} ;; then #undef O / #define O {' '.join(case['redef']['body'])} ;; "
                                              f"{' '.join(case['inv'])} -> {' '.join(got2)} ; ISO C: {' '.join(case['out2'])}", case=case))
                     break
+    find_probe(numeric, fails, stats)
     return fails, stats
 
 
